@@ -58,6 +58,32 @@ Definition stamp_row (i : nat) (ysh : C) (brs : list branch) : list (nat * C) :=
   flat_map (fun b => (if Nat.eqb (bf b) i then [(bf b, yff b); (bt b, yft b)] else []) ++
                      (if Nat.eqb (bt b) i then [(bf b, ytf b); (bt b, ytt b)] else [])) brs.
 
+(* ------------------------------------------------------------------ Jacobian rows of one branch (polar state) *)
+(* matrix_base.py _dSbr_dv (:186-227) and _dImbr_dV (:252-283), row of ONE branch, for either side: "own side" bus s
+   (from-side rows: s = f, entries yff/yft; to-side rows: s = t, entries ytt/ytf) and the other end e.
+   State of a bus in polar form (E2V: V = vm*exp(j*theta)): magnitude vm and the unit vector (cos theta, sin theta),
+   which is an ORACLE pair (pc, ps) supplied by the harness; V/abs(V) of the code is that unit vector. *)
+Record pol := { vm : Q; pc : Q; ps : Q }.
+Definition Vn (p : pol) : C := mkC (pc p) (ps p).                     (* Vnorm = V/|V| *)
+Definition Vof (p : pol) : C := Cscale (vm p) (Vn p).                 (* V *)
+Definition I_side (ys ye Vs Ve : C) : C := Cadd (Cmul ys Vs) (Cmul ye Ve).           (* (Y*V)[l] *)
+Definition S_side (ys ye Vs Ve : C) : C := Cmul Vs (Cconj (I_side ys ye Vs Ve)).     (* V[s]*conj(Y*V) : create_hx :64-65 *)
+(* dS_dVa = 1j*(conj(diagI) @ sparse(V[s] at (l,s)) - diagVs @ conj(Y @ diagV)) : columns s and e of row l *)
+Definition dS_dth_s (ys ye : C) (s e : pol) : C :=
+  Cmul Cj (Csub (Cmul (Cconj (I_side ys ye (Vof s) (Vof e))) (Vof s)) (Cmul (Vof s) (Cconj (Cmul ys (Vof s))))).
+Definition dS_dth_e (ys ye : C) (s e : pol) : C :=
+  Cmul Cj (Csub C0 (Cmul (Vof s) (Cconj (Cmul ye (Vof e))))).
+(* dS_dVm = diagVs @ conj(Y @ diagVnorm) + conj(diagI) @ sparse(Vnorm[s] at (l,s)) *)
+Definition dS_dvm_s (ys ye : C) (s e : pol) : C :=
+  Cadd (Cmul (Vof s) (Cconj (Cmul ys (Vn s)))) (Cmul (Cconj (I_side ys ye (Vof s) (Vof e))) (Vn s)).
+Definition dS_dvm_e (ys ye : C) (s e : pol) : C := Cmul (Vof s) (Cconj (Cmul ye (Vn e))).
+(* dP = [dS_dVa.real, dS_dVm.real], dQ = [dS_dVa.imag, dS_dVm.imag] *)
+(* _dImbr_dV: diagInorm = conj(I)/abs(I) (abs(I) = ORACLE m), a = Inorm*Y*diagV, b = Inorm*Y*diagVnorm,
+   dIm_dth = -a.imag, dIm_dv = b.real ; column k with matrix entry yk *)
+Definition Inorm (ys ye : C) (s e : pol) (m : Q) : C := Cscale (qdiv 1 m) (Cconj (I_side ys ye (Vof s) (Vof e))).
+Definition dIm_dth (inorm yk : C) (k : pol) : Q := qopp (im (Cmul (Cmul inorm yk) (Vof k))).
+Definition dIm_dvm (inorm yk : C) (k : pol) : Q := re (Cmul (Cmul inorm yk) (Vn k)).
+
 (* ------------------------------------------------------------------ one WLS step *)
 Record meas := { hrow : list Q;       (* row of the Jacobian H *)
                  wgt : Q;             (* 1/sigma^2 *)
@@ -113,4 +139,16 @@ Definition run_normal_eq (n : nat) (ms : list meas) : out :=
   OL [ OL (map (fun j => OL (map (fun k => oq (gain j k ms)) (seq 0 n))) (seq 0 n));
        OL (map (fun j => oq (rhs j ms)) (seq 0 n));
        oq (objective ms) ].
+(* Jacobian rows of one branch: from side [th_f th_t vm_f vm_t] (complex: real part = dP row, imaginary part = dQ row),
+   to side in the same column order, then the |I| rows of both sides (mf, mt = abs(If), abs(It) oracles) *)
+Definition run_jac_branch (b : branch) (f t : pol) (mf mt : Q) : out :=
+  let inf := Inorm (yff b) (yft b) f t mf in
+  let int_ := Inorm (ytt b) (ytf b) t f mt in
+  OL [ OL [oc (dS_dth_s (yff b) (yft b) f t); oc (dS_dth_e (yff b) (yft b) f t);
+           oc (dS_dvm_s (yff b) (yft b) f t); oc (dS_dvm_e (yff b) (yft b) f t)];
+       OL [oc (dS_dth_e (ytt b) (ytf b) t f); oc (dS_dth_s (ytt b) (ytf b) t f);
+           oc (dS_dvm_e (ytt b) (ytf b) t f); oc (dS_dvm_s (ytt b) (ytf b) t f)];
+       OL [oq (dIm_dth inf (yff b) f); oq (dIm_dth inf (yft b) t); oq (dIm_dvm inf (yff b) f); oq (dIm_dvm inf (yft b) t)];
+       OL [oq (dIm_dth int_ (ytf b) f); oq (dIm_dth int_ (ytt b) t); oq (dIm_dvm int_ (ytf b) f); oq (dIm_dvm int_ (ytt b) t)];
+       OL [oc (S_side (yff b) (yft b) (Vof f) (Vof t)); oc (S_side (ytt b) (ytf b) (Vof t) (Vof f))] ].
 Definition run_merged (zs : list (Q * Q)) : out := OL [oq (merged_value zs); oq (merged_var zs)].
